@@ -470,13 +470,13 @@ func (h *H) identAt(name string, p Pt, tbl table, rank int64) {
 		s0 := sensOf(row, 1)
 		if !finite(s0, lg) {
 			if !finite(lg) {
-				r = idres{region: "k=1..4", nontriv: true, kind: "non-finite", what: fmt.Sprintf("Mlgamma(%v,%d)=%v but Mgamma=%v", x, k, lg, gm)}
+				r = idres{region: mgRegion(k), nontriv: true, kind: "non-finite", what: fmt.Sprintf("Mlgamma(%v,%d)=%v but Mgamma=%v", x, k, lg, gm)}
 				break
 			}
 			return
 		}
 		tol := C * u * (2*math.Max(1, s0) + 2*math.Abs(w))
-		r = resid(name, "k=1..4", math.Abs(lg-w), tol, fmt.Sprintf("Mlgamma(%v,%d)=%v, log(Mgamma)=%v", x, k, lg, w))
+		r = resid(name, mgRegion(k), math.Abs(lg-w), tol, fmt.Sprintf("Mlgamma(%v,%d)=%v, log(Mgamma)=%v", x, k, lg, w))
 	case "Mgamma(x+1,k)=Mgamma(x,k)*prod":
 		k := int(a)
 		row0, ok0 := tbl[mkKey("mgamma", a, x)]
@@ -495,7 +495,7 @@ func (h *H) identAt(name string, p Pt, tbl table, rank int64) {
 			return
 		}
 		tol := C * u * (math.Abs(g1)*math.Max(1, s1) + math.Abs(g0*prod)*(math.Max(1, s0)+float64(k)))
-		r = resid(name, "k=1..4", math.Abs(g1-g0*prod), tol, fmt.Sprintf("Mgamma(%v,%d)=%v, Mgamma(%v,%d)=%v", x, k, g0, x+1, k, g1))
+		r = resid(name, mgRegion(k), math.Abs(g1-g0*prod), tol, fmt.Sprintf("Mgamma(%v,%d)=%v, Mgamma(%v,%d)=%v", x, k, g0, x+1, k, g1))
 	case "LogSub(LogAdd(a,b),b)=a":
 		b := x
 		d := b - a
@@ -604,6 +604,9 @@ func igamIdent(name string, a, x float64, tbl table) idres {
 			return idres{region: reg, nontriv: true, kind: "non-finite", what: fmt.Sprintf("GammaP(%v,%v)=%v, GammaP(%v,%v)=%v", a, x, p0, a+1, x, p1)}
 		}
 		P0, P1 := f64(quo(r0.L, r0.G)), f64(quo(r1.L, r1.G))
+		if P0 < 1e-290 {
+			return idres{skip: true} // all members in the subnormal range: rounding is absolute there
+		}
 		c1 := f64(quo(r1.pref, r1.L)) + r1.caP
 		relTerm := 4 + math.Abs(a*math.Log(x)) + x + math.Abs(lg)
 		tol := C * u * (P0*math.Max(1, cxL+r0.caP) + P1*math.Max(1, c1) + term*relTerm)
@@ -612,6 +615,13 @@ func igamIdent(name string, a, x float64, tbl table) idres {
 		}
 		return resid(name, reg, math.Abs(p1-(p0-term)), tol, fmt.Sprintf("GammaP(%v,%v)=%v, GammaP(%v,%v)=%v, x^a e^-x/Gamma(a+1)=%v", a, x, p0, a+1, x, p1, term))
 	}
+}
+
+func mgRegion(k int) string {
+	if k > 4 {
+		return "k>4"
+	}
+	return "k=1..4"
 }
 
 var _ = big.NewFloat
